@@ -32,6 +32,7 @@ func init() {
 			for _, p := range []int{1, 4, 16} {
 				bs = append(bs, Batch{Name: fmt.Sprintf("p%d", p), Args: map[string]string{"procs": fmt.Sprint(p)}, Race: true, Procs: p, Weight: min(p, 4)})
 			}
+			bs = append(bs, Batch{Name: "nodelay-virtual", Kind: "synctest", Race: true, Args: map[string]string{"test": "TestC16NoDelay"}})
 			bs = append(bs, Batch{Name: "teardown-panic", Args: map[string]string{"mode": "tdpanic", "procs": "4"}, Race: true, Procs: 4, Weight: 2})
 			for _, t := range []string{"0", "1"} {
 				bs = append(bs, Batch{Name: "hostile-t" + t, Args: map[string]string{"mode": "hostile", "tracking": t, "procs": "4"}, Race: true, Procs: 4, Weight: 2})
@@ -426,11 +427,22 @@ func runC16(c *Ctx) {
 		s.Conn.HandleBG("EVT", victim("bg"))
 		release := make(chan struct{})
 		var parkedStarted int64
+		var parkedRems []client.Remover
 		for k := 0; k < nParked; k++ {
-			s.Conn.HandleBG("EVT", client.HandlerFunc(func(_ *client.Conn, l *client.Line) {
+			parkedRems = append(parkedRems, s.Conn.HandleBG("EVT", client.HandlerFunc(func(_ *client.Conn, l *client.Line) {
 				atomic.AddInt64(&parkedStarted, 1)
 				<-release
-			}))
+			})))
+		}
+		if nParked > 1 {
+			// half-way through, a foreground handler unregisters one of the handlers that are parked (its running
+			// invocations are none of Remove's business)
+			var once int32
+			s.Conn.HandleFunc("EVT", func(_ *client.Conn, l *client.Line) {
+				if n, _ := strconv.Atoi(l.Args[0]); n >= nEvents/2 && atomic.CompareAndSwapInt32(&once, 0, 1) {
+					parkedRems[0].Remove()
+				}
+			})
 		}
 		if nParked > 0 {
 			// one more that parks on a verb nobody handles in the foreground
@@ -578,7 +590,11 @@ func runC16(c *Ctx) {
 						return false
 					}
 					if n := logger.Len(); n > want {
-						fail("default-recovery-extra", fmt.Sprintf("%d panic records for %d panics", n, want))
+						var texts []string
+						for _, rec := range logger.Records() {
+							texts = append(texts, clipS(rec.Text))
+						}
+						fail("default-recovery-extra", fmt.Sprintf("%d panic records for %d panics: %q", n, want, texts))
 						return false
 					}
 				}
@@ -647,6 +663,10 @@ func runC16(c *Ctx) {
 			close(release)
 			go s.Conn.Close()
 		}
+		// nothing of this session may still be running when the next one resets the (process-wide) logger: a
+		// background victim's panic(nil) - whose record the final checkpoint does not wait for - would otherwise be
+		// counted there
+		rig.WaitNoLib(WaitShort, 400)
 		s.Release()
 		if !ok && c.R.NumViolations() > 5 {
 			return
